@@ -115,9 +115,19 @@ class BTGen:
             return [["selectwhere", key, False, False]]
         key = self.key()
         cols = [[t, [hx(dy(rng, -50, 50, 1) + 0.001 * t) if rng.random() > 0.05 else NAN for _ in dates]] for t in tickers]
-        self.adata.append([key, ["frame", list(dates), cols]])
+        idx = list(dates)
+        if rng.random() < 0.35 and not wf:
+            # observation dates of the statistic are a subset of the data dates: SetStat must skip the others, never
+            # borrow a later observation
+            idx = [d for d in dates if rng.random() < 0.65] or list(dates[:1])
+            cols = [[t, [c[dates.index(d)] for d in idx]] for t, c in cols]
+        self.adata.append([key, ["frame", idx, cols]])
         n = rng.choice([hx(1.0), hx(2.0), hx(0.5), hx(0.34)])
-        return [["selectall", False, False], ["setstat", key, 0, rng.choice([0, 0, 1])],
+        # the ranking is over the tickers selected so far (filter_selected): often a strict subset of those with a statistic
+        first = ["selectall", False, False]
+        if rng.random() < 0.5 and len(tickers) > 1:
+            first = ["selectthese", rng.sample(tickers, rng.randint(1, len(tickers) - 1)), False, False]
+        return [first, ["setstat", key, 0, rng.choice([0, 0, 1])],
                 ["selectn", n, rng.random() < 0.5, False, rng.random() < 0.5 or wf]]
 
     # ---- weighting
@@ -345,12 +355,42 @@ def gen_replay_cases(seed, n, prefix="y"):
     return [gen_replay_case(rng, "%s%05d" % (prefix, i)) for i in range(n)]
 
 
+def gen_limit_deltas_case(rng, name):
+    """dated target weights whose ticker set changes from date to date (NaN = not targeted), LimitDeltas, Rebalance: children
+    that are held but no longer targeted must be wound down at the limited pace too.  Mostly cost-free and fractional, so
+    that the weight-change oracle applies."""
+    g = BTGen(rng)
+    n = rng.randint(6, 14)
+    dates = gen_dates(rng, n)
+    nt = rng.randint(3, 5)
+    tickers = list(range(1, nt + 1))
+    prices = [[t, gen_price_col(rng, n, p_nan=0.0)] for t in tickers]
+    g.full = set(tickers)
+    key = g.key()
+    cols = []
+    for t in tickers:
+        cols.append([t, [NAN if rng.random() < 0.4 else hx(rng.choice([0.125, 0.25, 0.25, 0.375, -0.125])) for _ in range(n)]])
+    g.adata.append([key, ["frame", list(dates), cols]])
+    lim = hx(rng.choice([0.03125, 0.0625, 0.125, 0.25]))
+    st = [["runperiod", "daily", True, False, False], ["selectall", False, False], ["weightarget", key], ["limitdeltas", lim, []], ["rebalance"]]
+    kids = [["sec", t, "sec", False, hx(1.0), "str"] for t in tickers] if rng.random() < 0.5 else []
+    tree = ["strat", nt + 5, False, kids, st]
+    plain = rng.random() < 0.7
+    return {"name": name, "dates": dates, "intpos": (not plain) and rng.random() < 0.5,
+            "comm": ["none"] if plain else rng.choice([["none"], ["prop", hx(0.001953125)]]), "prices": prices,
+            "bidoffer": None if plain or rng.random() < 0.5 else [[t, [hx(dy(rng, 0, 1, 8)) for _ in range(n)]] for t in tickers],
+            "coupons": None, "cost_long": None, "cost_short": None, "adata": g.adata,
+            "capital": hx(float(rng.choice([100000, 1000000]))), "tree": tree, "pyseed": rng.randint(0, 1000)}
+
+
 def gen_case(rng, name):
     r0 = rng.random()
     if r0 < 0.2:
         return gen_fi_case(rng, name)
     if r0 < 0.26:
         return gen_replay_case(rng, name)
+    if r0 < 0.31:
+        return gen_limit_deltas_case(rng, name)
     g = BTGen(rng)
     n = rng.randint(6, 24)
     dates = gen_dates(rng, n)
